@@ -158,7 +158,18 @@ class ExternMixin:
             self.assume(z3.And(x >= lo, x <= hi))
         return r
 
-    opq_methods = {'datetime.astimezone': lambda self, recv, args, kw, node: self.dt_astimezone(recv, args, kw, node)}
+    def dt_replace(self, recv, args, kw, node):
+        """X-DT: d.replace(...) is ANOTHER datetime (fields relabelled, not the same instant): an uninterpreted function of d and the
+        replaced parts, with calendar-range fields - in particular not dt_utc(d)"""
+        t = self.ufunc('dt_replace_' + '_'.join(sorted(kw)), OPQ, OPQ)(recv.t)
+        rng = {'year': (1, 9999), 'month': (1, 12), 'day': (1, 31), 'hour': (0, 23), 'minute': (0, 59), 'second': (0, 59), 'microsecond': (0, 999999)}
+        for f, (lo, hi) in rng.items():
+            x = self.ufunc(f'datetime_{f}', OPQ, INT)(t)
+            self.assume(z3.And(x >= lo, x <= hi))
+        return SV('opq', t, 'datetime')
+
+    opq_methods = {'datetime.astimezone': lambda self, recv, args, kw, node: self.dt_astimezone(recv, args, kw, node),
+                   'datetime.replace': lambda self, recv, args, kw, node: self.dt_replace(recv, args, kw, node)}
 
     def bi_round(self, args, kw, node):
         """X-ROUND: round(us / 1000) for an integer us: exact closed form (round-half-even on the exactly representable ties);
@@ -306,6 +317,18 @@ class ExternMixin:
             self.assume(self.ufunc('chunk_sdtype', OPQ, OPQ)(r.t) == self.ufunc('sarray_dtype', OPQ, OPQ)(recv.t))
             if not self.in_spec:
                 self.oblige('slice-in-bounds[X-NP1]', inb, node, aux=True, info='array slice must be inside the array for the row-exact view axiom')
+        if tag == 'chunk' and name == '__getitem__' and args and args[0].k == 'slice':
+            # X-NP1 again: a slice C[a:b] of a row view C (0 <= a <= b <= rows of C) is the view of its rows a..b-1, same dtype
+            lo, hi = args[0].t
+            n = self.ufunc('chunk_n_rows', OPQ, INT)(recv.t)
+            a = self.as_int(lo) if lo.k != 'none' else z3.IntVal(0)
+            b = self.as_int(hi) if hi.k != 'none' else n
+            inb = z3.And(0 <= a, a <= b, b <= n)
+            self.assume(z3.Implies(inb, z3.And(self.ufunc('chunk_first_row', OPQ, INT)(r.t) == self.ufunc('chunk_first_row', OPQ, INT)(recv.t) + a,
+                                               self.ufunc('chunk_n_rows', OPQ, INT)(r.t) == b - a)))
+            self.assume(self.ufunc('chunk_sdtype', OPQ, OPQ)(r.t) == self.ufunc('chunk_sdtype', OPQ, OPQ)(recv.t))
+            if not self.in_spec:
+                self.oblige('slice-in-bounds[X-NP1]', inb, node, aux=True, info='slice of a row view must be inside the view for the row-exact axiom')
         if tag in ('ndarray',) and name == '__getitem__' and args and args[0].k == 'slice':
             # X-NP1: D[a:b] of a dataset holds rows a.. of D (numpy clamps; exactness of the row count is the in-bounds obligation of the caller)
             lo, hi = args[0].t
